@@ -6,7 +6,7 @@
    exist.  Not proved: that premise itself (value bounds of evaluation and table entries); decided by
    the correspondence run over limits, histories, clocks and pre-filled tables. *)
 From Coq Require Import NArith ZArith List Bool Permutation.
-From Rawr Require Import Consts Bits Magic Position MoveGen MakeMove Eval TT Search SearchFacts SearchFacts2.
+From Rawr Require Import Consts Bits Magic Position MoveGen MakeMove Eval TT Search MakeStages SearchFacts SearchFacts2 Closure MenCount SearchBound.
 Import ListNotations.
 Local Open Scope Z_scope.
 
@@ -34,7 +34,26 @@ Proof. exact answer_is_last_pv. Qed.
 Theorem C03_ordering_is_permutation : forall p ms tm, Permutation (sort_n p ms tm) ms.
 Proof. exact sort_n_perm. Qed.
 
+(* ---- the root-level statement (SearchBound.v): for every limit (any stop predicate, incl. zero budgets), every game
+   history and every table content satisfying the table invariant `TBnd` (all stored scores within the mate bounds --
+   true of a new, a cleared and a resized table and kept by every search: C14_scores_within_the_mate_bounds), the search
+   answers with a move that is legal in the root position whenever the root has one.  `InvS` is the invariant kept by
+   every generated legal move and null move (Closure.v, MenCount.v; executable form `invs_b`).  The one hypothesis left is
+   named: a generated move never leaves the mover's own king attacked -- the soundness half of C01, measured by C01. *)
+Theorem C03_search_answers_with_a_legal_move : forall (stopf : Stats -> bool),
+  (forall u p m, Inv0 p -> In m (legal_moves p) -> in_check_them (makemove u p m) = false) ->
+  forall fuel p hist tt r, InvS p -> TBnd tt -> Z.of_nat fuel <= 2 * MATE_SCORE -> legal_moves p <> [] ->
+  root stopf fuel p hist tt = Some r -> exists m, rr_best r = Some m /\ In m (legal_moves p).
+Proof. exact root_answers_legal. Qed.
+Theorem C03_tables_the_engine_makes_satisfy_the_invariant : forall mb t,
+  TBnd (tt_new mb) /\ TBnd (tt_clear t) /\ (TBnd t -> TBnd (tt_resize t mb)).
+Proof. intros mb t. split; [apply TBnd_new|split; [apply TBnd_clear|apply TBnd_resize]]. Qed.
+Example C03_premises_startpos : invs_b startpos = true.
+Proof. vm_compute. reflexivity. Qed.
+
 Print Assumptions C03_root_node_best_legal.
 Print Assumptions C03_root_node_answers_legal.
 Print Assumptions C03_answer_is_last_pv.
 Print Assumptions C03_ordering_is_permutation.
+Print Assumptions C03_search_answers_with_a_legal_move.
+Print Assumptions C03_tables_the_engine_makes_satisfy_the_invariant.
